@@ -69,6 +69,9 @@ RULE += (
     'e cases, an abandoned walk of each kind; parents dropped before the last observation; a '
     'check over 64-200 clients inserted out of id order; iteration orders compared with a chi'
     'ld interpreter under another PYTHONHASHSEED.')
+RULE += (
+    ' '
+    'Also: walk orders are compared before and after the shuffled passes.')
 ASSUMPTIONS = [
     'all generated preprocessors are deterministic, strictly per-example and '
     'row-preserving (BatchPreprocessor doc); under a row-count-changing client '
